@@ -73,6 +73,10 @@ def structures(tier):
             c = base + 64 * i + d
             if c <= nr:
                 sts.append({'kind': 'rename', 'cut': c})
+    for i in (1, 3, 5, 8, 9):
+        for d in (0, 17):
+            sts.append({'kind': 'rename', 'cut': base + 64 * i + d, 'reuse': 'error' if d else 'boundary'})
+    sts.append({'kind': 'rename', 'cut': nr, 'reuse': 'early'})
     for c in (0, 1, 2, 5):
         sts.append({'kind': 'count', 'count': c, 'cut': nt})
         sts.append({'kind': 'count', 'count': c, 'cut': base + 64 * 3 + 10})
@@ -249,6 +253,40 @@ def run_rename(ctx, st):
         ctx.check(L + '/reported-trace-never-changes', eq(at_report, at_end), 'trace %d reads differently after later records were parsed' % i)
     for i in range(min(len(po), len(fo))):
         ctx.check(L + '/prefix', eq(po[i][1], fo[i][1]), 'trace %d of the cut dump differs from the complete dump\'s' % i)
+    if st.get('reuse'):
+        # the request on the cut dump ended (with an error, or early: only the first item was taken); the next request on
+        # the SAME parser object reports what a fresh parser reports for the complete dump
+        from pykdebugparser.pykdebugparser import PyKdebugParser
+        p = PyKdebugParser()
+        if ctx.symbolic:
+            p.threads_pids, p.pids_names = SymMap(), SymMap()
+        try:
+            g = p.traces(make_stream(_cut(data, st['cut'])))
+            if st['reuse'] == 'early':
+                next(iter(g), None)
+            else:
+                for _ in g:
+                    pass
+        except Budget:
+            raise
+        except Exception as e:      # noqa
+            __import__('vxlib.symx.core', fromlist=['x']).proxy_rejected(e)
+        # the second dump starts in the middle of an operation (an END whose START is not in it) and names nothing
+        data2 = K.v2_file([(T, 7, b'xpcproxy')], 2, recs[1:])
+        fo, _ = objs(data2)
+        try:
+            again = [str(t) for t in p.traces(make_stream(data2))]
+        except Budget:
+            raise
+        except Exception as e:      # noqa
+            __import__('vxlib.symx.core', fromlist=['x']).proxy_rejected(e)
+            ctx.check('C06/reuse/no-error', False, '%s: %s' % (type(e).__name__, e)); ctx.reach(); return
+        fresh = [b for a, b in fo]
+        ctx.check('C06/reuse/same-count-as-a-fresh-parser', len(again) == len(fresh), '%d vs %d traces' % (len(again), len(fresh)))
+        for i in range(min(len(again), len(fresh))):
+            ctx.check('C06/reuse/same-traces-as-a-fresh-parser', eq(again[i], fresh[i]), 'trace %d' % i)
+        ctx.reach()
+        return
     for color in (True, False):
         full, ferr = lines(data, color)
         part, perr = lines(_cut(data, st['cut']), color)
